@@ -43,8 +43,9 @@ def run_group(groups, prop, tier, repo, root, only_quick=False):
             except Exception as e:
                 out.append(dict(harness=g + "/*", status="error", kind="complete", detail="splice failed: %s" % e))
                 continue
-            for H in G["harnesses"]:
-                out.append(_run_one(node, root, prop, g, G, H))
+            hs = [H for H in G["harnesses"] if not (only_quick and not H.get("quick"))]
+            if hs:
+                out.extend(_run_many(node, root, prop, g, G, hs))
         shutil.rmtree(os.path.join(WORK, "node"), ignore_errors=True)
     finally:
         fcntl.flock(lock, fcntl.LOCK_UN)
@@ -59,6 +60,56 @@ def _cmd(G, H, extra=()):
     if G.get("contracts"):
         cmd += ["-Z", "function-contracts"]
     return cmd + list(extra)
+
+
+def _run_many(node, root, prop, g, G, hs):
+    """one cargo-kani invocation for several harnesses of a crate (one compilation), parsed per harness."""
+    env = dict(os.environ)
+    env["CARGO_NET_OFFLINE"] = "true"
+    env["CARGO_TARGET_DIR"] = os.path.join(root, ".cache", "kani-target")
+    cmd = ["cargo", "kani", "-p", G["crate"], "--output-format", "terse"]
+    for H in hs:
+        cmd += ["--harness", H["name"]]
+    if G.get("stubbing"):
+        cmd += ["-Z", "stubbing"]
+    if G.get("contracts"):
+        cmd += ["-Z", "function-contracts"]
+    total = sum(H.get("timeout", 1200) for H in hs)
+    t0 = time.time()
+    try:
+        p = subprocess.run(cmd, cwd=node, env=env, capture_output=True, text=True, timeout=total)
+        txt = p.stdout + "\n" + p.stderr
+    except subprocess.TimeoutExpired as e:
+        subprocess.run(["pkill", "-f", "cbmc --no-malloc"], capture_output=True)
+        txt = (e.stdout.decode() if isinstance(e.stdout, bytes) else (e.stdout or ""))
+    wall = time.time() - t0
+    chunks = re.split(r"Checking harness ", txt)
+    per = {}
+    for c in chunks[1:]:
+        name = c.split("...")[0].strip().split("::")[-1]
+        per[name] = c
+    out = []
+    for H in hs:
+        c = per.get(H["name"])
+        res = dict(harness="%s/%s" % (g, H["name"]), kind=H["kind"], bound=H.get("bound"))
+        if c is None:
+            # fall back to a single run (e.g. compilation problem or timeout before this harness)
+            out.append(_run_one(node, root, prop, g, G, H))
+            continue
+        m = re.search(r"Verification Time: ([0-9.]+)s", c)
+        res["seconds"] = float(m.group(1)) if m else round(wall / max(1, len(hs)), 1)
+        if "VERIFICATION:- SUCCESSFUL" in c:
+            uc = re.search(r"(\d+) of (\d+) cover properties satisfied", c)
+            if uc and uc.group(1) != uc.group(2):
+                res.update(status="error", detail="vacuity: cover property unsatisfied")
+            else:
+                res.update(status="ok")
+            out.append(res)
+        elif "VERIFICATION:- FAILED" in c:
+            out.append(_run_one(node, root, prop, g, G, H))      # re-run alone to collect the concrete playback
+        else:
+            out.append(_run_one(node, root, prop, g, G, H))
+    return out
 
 
 def _run_one(node, root, prop, g, G, H):
